@@ -34,8 +34,15 @@ def vfold(line):
     return b"\r\n".join(out).decode("utf-8")
 
 
-def vcard(card, uid):
+# text no filter of the tables speaks about, with characters outside the BMP (personal names in
+# CJK Extension B, emoji, mathematical letters) - what is stored is what address-data must carry
+DECOR = ["", "X-PHONETIC:\U00020BB7\u7530 \U0001F600", "X-LABEL:\U0001D49C\u00e9 \u2603", "X-TAB:a\tb"]
+
+
+def vcard(card, uid, decor=""):
     lines = ["BEGIN:VCARD", "VERSION:3.0", "UID:" + uid]
+    if decor:
+        lines.append(decor)
     fn = text(card["FN"][0]["v"])
     lines.append("FN:" + fn)
     lines.append("N:" + fn + ";;;;")
@@ -100,7 +107,7 @@ def make_book(w, path, cards):
     r = w.request("MKCOL", path, [("Content-Type", "text/xml")], gamma.mkcol_body("addressbook"))
     assert r.status in range(200, 300), r
     for i, c in enumerate(cards):
-        r = w.request("PUT", path + card_name(i), [("Content-Type", "text/vcard")], vcard(c, "card-%d" % i))
+        r = w.request("PUT", path + card_name(i), [("Content-Type", "text/vcard")], vcard(c, "card-%d" % i, DECOR[i % len(DECOR)]))
         assert r.status in range(200, 300), (r.status, r.body[:300], vcard(c, "x"))
 
 
@@ -138,8 +145,15 @@ def run_table_b(cards, table, frontend="wsgi"):
         make_book(w, "/user/contacts/b/", cards)
         out = []
         lim = []
+        data_ok, checked = True, 0
         for t in table:
-            names, err, _ = report(w, "/user/contacts/b/", query_xml(t["f"]))
+            names, err, data = report(w, "/user/contacts/b/", query_xml(t["f"]))
+            if checked < 40:
+                for n, d in sorted(data.items())[checked % 3:][:3]:
+                    g = w.request("GET", "/user/contacts/b/" + n)
+                    checked += 1
+                    if g.status != 200 or g.body.replace(b"\r\n", b"\n") != d:
+                        data_ok = False
             got = [False] * len(cards)
             extra = 0
             for n in names or []:
@@ -156,6 +170,6 @@ def run_table_b(cards, table, frontend="wsgi"):
                 full = {card_name(i) for i, x in enumerate(got) if x}
                 lim.append({"n": nres, "total": total, "got": len(lnames), "err": lerr,
                             "subset": set(lnames) <= full})
-        return out, lim
+        return out, lim, {"data_ok": data_ok, "checked": checked}
     finally:
         w.close()
